@@ -356,4 +356,24 @@ def inline_local_consts(fnode: ast.AST) -> ast.AST:
             if isinstance(node.ctx, ast.Load) and node.id in ok:
                 return ast.copy_location(ast.Constant(ok[node.id].value), node)
             return node
-    return ast.fix_missing_locations(R().visit(fn))
+    fn = ast.fix_missing_locations(R().visit(fn))
+    # pure name-building aliases bound once:  right_c = c + "_x"  (operands: names and constants only)
+    pure: Dict[str, ast.AST] = {}
+    for n in ast.walk(fn):
+        if isinstance(n, ast.Assign) and len(n.targets) == 1 and isinstance(n.targets[0], ast.Name) and counts.get(n.targets[0].id) == 1 \
+                and n.targets[0].id not in params and isinstance(n.value, (ast.BinOp, ast.JoinedStr)) \
+                and all(isinstance(x, (ast.BinOp, ast.Add, ast.Name, ast.Constant, ast.Load, ast.JoinedStr, ast.FormattedValue)) for x in ast.walk(n.value)) \
+                and any(isinstance(x, ast.Constant) and isinstance(x.value, str) for x in ast.walk(n.value)):
+            operands = {x.id for x in ast.walk(n.value) if isinstance(x, ast.Name)}
+            plain_assigned = {t.id for a_ in ast.walk(fn) if isinstance(a_, (ast.Assign, ast.AugAssign))
+                              for t in ast.walk(a_.targets[0] if isinstance(a_, ast.Assign) else a_.target) if isinstance(t, ast.Name) and isinstance(t.ctx, ast.Store)}
+            if all((o not in plain_assigned) or counts.get(o, 0) <= 1 for o in operands):
+                pure[n.targets[0].id] = n.value
+
+    class R2(ast.NodeTransformer):
+        def visit_Name(self, node):
+            if isinstance(node.ctx, ast.Load) and node.id in pure:
+                import copy as _c
+                return ast.copy_location(_c.deepcopy(pure[node.id]), node)
+            return node
+    return ast.fix_missing_locations(R2().visit(fn))
